@@ -40,6 +40,15 @@ Fam(f) ==
     [] f = "rtld" -> [single |-> {<<"RTLD_LAZY", 0>>, <<"RTLD_NOW", 1>>, <<"RTLD_LOCAL", 2>>, <<"RTLD_GLOBAL", 3>>, <<"RTLD_NOLOAD", 4>>, <<"RTLD_NODELETE", 7>>, <<"RTLD_FIRST", 8>>},
                     field |-> NoField, zero |-> {}]
 
+\* Darwin names (single bits, values from the XNU headers) that the tool did NOT declare when the tables above were
+\* transcribed.  A tool that declares more of Darwin's names later still satisfies the statement: such a name may be shown -
+\* for a word in which its bit is set.  (Names in neither table cannot be checked against Darwin and are rejected.)
+Extra(f) ==
+  CASE f = "open" -> {<<"O_SYNC", 7>>, <<"O_FSYNC", 7>>, <<"O_NOCTTY", 17>>, <<"O_DIRECTORY", 20>>, <<"O_DSYNC", 22>>, <<"O_NOFOLLOW_ANY", 29>>}
+    [] f = "chflags" -> {<<"UF_COMPRESSED", 5>>, <<"UF_TRACKED", 6>>, <<"UF_DATAVAULT", 7>>, <<"SF_RESTRICTED", 19>>, <<"SF_NOUNLINK", 20>>,
+                         <<"SF_FIRMLINK", 23>>, <<"SF_DATALESS", 30>>}
+    [] OTHER -> {}
+
 DeclaredBits(f) == {p[2] : p \in Fam(f).single} \cup Fam(f).field.mask
 FieldVal(f, word) == word \cap Fam(f).field.mask
 FieldDefined(f, word) == \E p \in Fam(f).field.vals : p[1] = FieldVal(f, word)
@@ -55,7 +64,8 @@ Expected(f, word) ==
 FieldWild(f, word) == Fam(f).field.mask # {} /\ ~FieldDefined(f, word)
 
 FlagVerdict(f, word, shown) ==
-  LET sh == shown \ Fam(f).zero
+  LET okExtra == {p[1] : p \in {q \in Extra(f) : q[2] \in word}}      \* later-declared Darwin names whose bit IS set
+      sh == (shown \ Fam(f).zero) \ okExtra
       ex == Expected(f, word) \ Fam(f).zero
       wild == IF FieldWild(f, word) THEN FieldNames(f) ELSE {}
   IN IF \E n \in sh \ wild : n \notin ex THEN "name-shown-for-bits-not-set"
